@@ -217,7 +217,7 @@ def run_model(line):
 
 
 # ------------------------------------------------------------------ text of the composer -> document
-_TOK = re.compile(r'\s*(?:(//[^\n]*|/\*.*?\*/)|(\(\* .*? \*\))|(`\w+)|(\\\S+)|([A-Za-z_][A-Za-z0-9_$]*)|(-?\d+)|([()\[\]{},;.#=:]))', re.S)
+_TOK = re.compile(r'\s*(?:(//[^\n]*|/\*.*?\*/)|(\(\* .*? \*\))|(`\w+)|(\\\S+)|([A-Za-z_][A-Za-z0-9_]*)|(-?\d+)|([()\[\]{},;.#=:]))', re.S)
 
 
 class _Reader:
@@ -458,6 +458,36 @@ def text_doc(text):
             raise DocUnreadable('unexpected %r at top level' % (k,))
 
 
+def features(doc, cnt):
+    """what the compared documents contain (coverage of the writer's constructs)"""
+    for m in doc:
+        cnt['cell module' if m['cell'] else 'module'] += 1
+        cnt['module parameters'] += bool(m['params'])
+        cnt['module attributes'] += bool(m['attrs'])
+        for h in m['header']:
+            cnt['header alias .p({...})' if h[0] == 'HA' else 'header name'] += 1
+        for it in m['body']:
+            if it[0] == 'PD':
+                cnt['port declaration' + (' [h:l]' if it[3] else '')] += 1
+            elif it[0] == 'W':
+                cnt['cable declaration' + (' [h:l]' if it[2] else '') + (' with attributes' if it[4] else '')] += 1
+            elif it[0] == 'AS':
+                cnt['assign'] += 1
+            elif it[0] == 'DP':
+                cnt['defparam'] += 1
+            elif it[0] == 'I':
+                cnt['instance'] += 1
+                cnt['instance #(...)'] += bool(it[3])
+                cnt['instance attributes'] += bool(it[4])
+                for pn, e in it[6]:
+                    if e is None:
+                        cnt['connection empty'] += 1
+                    elif e[0] == 'C':
+                        cnt['connection {...}'] += 1
+                    else:
+                        cnt['connection ' + {'id': 'id', 'bit': 'id[i]', 'part': 'id[h:l]'}[e[1][0]]] += 1
+
+
 # ------------------------------------------------------------------ the check of one written netlist
 def first_difference(a, b, path='doc'):
     if type(a) != type(b):
@@ -518,6 +548,7 @@ def check(run, source, netlist, opts, real_items, text, describe, reread=None):
             if d:
                 problems.append(d)
             st['outcomes']['document'] += 1
+            features(model[1], st['constructs'])
             st['modules_compared'] += len(model[1])
             st['rt_check true' if model[2] else 'rt_check false'] += 1
             # the written document through the reader model vs the written text through the real reader
